@@ -1,7 +1,8 @@
 /-
   C16 — pixel <-> sky conversion of positions, vectors and ellipses (`AegeanTools/wcs_helpers.py`,
   class `WCSHelper`), over an ABSTRACT world coordinate system `Wcs`, plus an executable zenithal WCS
-  (SIN TAN ZEA ARC STG; CRVAL / CRPIX / CDELT; LONPOLE = 180 deg) written from FITS Paper II
+  (SIN TAN ZEA ARC STG; CRVAL / CRPIX / CD-matrix linear part, which covers CDELT, PC+CDELT and
+  CROTA2; LONPOLE = 180 deg) written from FITS Paper II
   (Calabretta & Greisen 2002), which is independent of astropy/wcslib.
 
   The arithmetic leaves (`Gen.C16.*`) are regenerated from the Python source by the translator on every
@@ -229,14 +230,31 @@ and the declination is taken as `atan2(sin δ, √(cos²δ cos²Δα + cos²δ s
 inductive Proj | SIN | TAN | ZEA | ARC | STG
   deriving DecidableEq, Repr
 
+/-- header of a zenithal image.  The linear part is the matrix `CD = [[cd11, cd12], [cd21, cd22]]`
+    (degrees per pixel) of FITS Paper I eq. 9 / Paper II §6.2: `CDi_j` cards directly, or
+    `CDELTi · PCi_j`, or, for the old `CROTA2 = ρ` convention,
+    `[[CDELT1 cos ρ, −CDELT2 sin ρ], [CDELT1 sin ρ, CDELT2 cos ρ]]`; plain CDELT is the diagonal case.
+    (The harness computes the four numbers from the header cards itself.) -/
 structure ZenHdr (α : Type) where
   proj : Proj
   crval1 : α
   crval2 : α
   crpix1 : α
   crpix2 : α
-  cdelt1 : α
-  cdelt2 : α
+  cd11 : α
+  cd12 : α
+  cd21 : α
+  cd22 : α
+
+/-- pixel → intermediate world coordinates (degrees): `CD · (p − CRPIX)` -/
+def linFwd (h : ZenHdr α) (p1 p2 : α) : α × α :=
+  (h.cd11 * (p1 - h.crpix1) + h.cd12 * (p2 - h.crpix2),
+   h.cd21 * (p1 - h.crpix1) + h.cd22 * (p2 - h.crpix2))
+
+/-- intermediate world coordinates → pixel: `CD⁻¹ · (x, y) + CRPIX` (adjugate over determinant) -/
+def linInv (h : ZenHdr α) (x y : α) : α × α :=
+  let det := h.cd11 * h.cd22 - h.cd12 * h.cd21
+  ((h.cd22 * x - h.cd12 * y) / det + h.crpix1, (h.cd11 * y - h.cd21 * x) / det + h.crpix2)
 
 /-- native radius (radians) of co-latitude `z` (radians) -/
 def radial (p : Proj) (z : α) : α :=
@@ -258,8 +276,9 @@ def radialInv (p : Proj) (r : α) : α :=
 
 /-- FITS pixel (p1, p2), 1-based → (ra, dec) in degrees; ra is NOT reduced to [0, 360) -/
 def zenP2W (h : ZenHdr α) (p1 p2 : α) : α × α :=
-  let x := R.radians (h.cdelt1 * (p1 - h.crpix1))
-  let y := R.radians (h.cdelt2 * (p2 - h.crpix2))
+  let xy := linFwd h p1 p2
+  let x := R.radians xy.1
+  let y := R.radians xy.2
   let r := R.hypot x y
   let phi := R.atan2 x (-y)
   let z := radialInv h.proj r
@@ -287,7 +306,7 @@ def zenW2P (h : ZenHdr α) (ra dec : α) : α × α :=
   let r := radial h.proj z
   let x := r * R.sin phi
   let y := -(r * R.cos phi)
-  (R.degrees x / h.cdelt1 + h.crpix1, R.degrees y / h.cdelt2 + h.crpix2)
+  linInv h (R.degrees x) (R.degrees y)
 
 def zenWcs (h : ZenHdr α) : Wcs α := ⟨zenP2W h, zenW2P h⟩
 
